@@ -266,5 +266,23 @@ def run(ctx):
                 if grid.orbital_id(idx, spin) != k:
                     ctx.violation('C13 grid_indices: orbital_id(grid_indices(%d)) != %d' % (k, k), {'call': 'Grid.orbital_id/grid_indices', 'grid': [dim, repr(length), kind], 'spinless': spinless, 'k': k})
             ctx.count('grid_bijection', nq)
+    # ---- plane_wave_hamiltonian family with nuclei: momentum-space and position-space forms are Fourier pairs, also
+    #      with the non_periodic kernel; Hermitian and number conserving
+    from openfermion.hamiltonians import plane_wave_hamiltonian, plane_wave_external_potential, dual_basis_external_potential
+    for dim, length in ([(1, 3), (1, 4), (2, 2)] + ([] if ctx.quick else [(1, 5), (2, (2, 3)), (2, 3)])):
+        grid = of.Grid(dim, length, rng.choice([1.0, 1.5, 2.0]))
+        geometry = [(rng.choice(['H', 'He']), tuple(round(rng.uniform(-0.4, 0.4), 3) for _ in range(dim))), (rng.choice(['Li', 'H', 'Be']), tuple(round(rng.uniform(-0.4, 0.4), 3) for _ in range(dim)))]
+        for spinless in (True, False):
+            nq = grid.num_points * (1 if spinless else 2)
+            if nq > N(8, 12): continue
+            for npd, rc in ((False, None), (True, None), (True, 1.5)):
+                rp = {'call': 'plane_wave_hamiltonian family', 'grid': [dim, repr(length)], 'geometry': repr(geometry), 'spinless': spinless, 'non_periodic': npd, 'period_cutoff': rc}
+                pwx = plane_wave_external_potential(grid, geometry, spinless, None, npd, rc); dux = dual_basis_external_potential(grid, geometry, spinless, npd, rc)
+                add('external_potential_fourier_pairing', '(fermi_close %s %s %s)' % (EPS2, coq_fop(of.normal_ordered(of.fourier_transform(pwx, grid, spinless))), coq_fop(of.normal_ordered(dux))),
+                    rp, key=(dim, repr(length), repr(geometry), spinless, npd, rc))
+                hp = plane_wave_hamiltonian(grid, geometry, spinless, True, False, None, npd, rc); hd = plane_wave_hamiltonian(grid, geometry, spinless, False, False, None, npd, rc)
+                add('plane_wave_hamiltonian_fourier_pairing', '(fermi_close %s %s %s && fermi_close %s %s (hc_map %s) && fcomm_zero %s %s)' %
+                    (EPS2, coq_fop(of.normal_ordered(of.fourier_transform(hp, grid, spinless))), coq_fop(of.normal_ordered(hd)), EPS2, coq_fop(hd), coq_fop(hd), coq_fop(hd), coq_fop_terms(number_op(nq))),
+                    rp, key=('h', dim, repr(length), repr(geometry), spinless, npd, rc))
     res = coq_eval_bools(ctx, 'c13', IMPORTS, items, chunk=(6 if ctx.quick else 2), timeout=1500)
     judge(ctx, res, meta, 'C13')
